@@ -21,7 +21,7 @@ EXTENDS Integers, Sequences, FiniteSets, TLC
 CONSTANTS Cfgs,       \* valid configuration values, e.g. {1, 2}
           Tasks,      \* task values (a task carries its seed)
           MaxLen,     \* bound on the call history
-          Dev         \* "none" | "noreset" | "privleak" | "usestd" | "seedless" | "writescfg" | "ctorderef" | "cachector" | "aliasrates"
+          Dev         \* "none" | "noreset" | "privleak" | "usestd" | "seedless" | "writescfg" | "ctorderef" | "cachector" | "aliasrates" | "latecheck"
 
 None == 0
 Bad == -1             \* an out-of-range parameter dictionary
@@ -86,6 +86,14 @@ Optimize(t) ==
                ELSE UNCHANGED <<cfg, callerCfg>>
     /\ UNCHANGED <<cached, alive>> /\ Log("Optimize", t)
 
+\* an invalid call on a configured instance: unknown mode, non-positive worker count, objective/weight count mismatch.
+\* It must be refused (ValueError) before any cycle runs: no run is recorded, no bookkeeping is touched.
+OptimizeBadCall(t) ==
+    /\ Room /\ alive /\ cfg # None
+    /\ last' = "ValueError"
+    /\ book' = (IF Dev = "latecheck" THEN book + 1 ELSE book)       \* deviation: validated only after cycles have run
+    /\ UNCHANGED <<cfg, cached, callerCfg, priv, npRng, stdRng, hist, alive>> /\ Log("OptimizeBadCall", t)
+
 \* the process draws other random numbers between two calls
 PerturbNp == Room /\ npRng' = npRng + 1 /\ UNCHANGED <<cfg, cached, callerCfg, book, priv, stdRng, hist, alive, last>> /\ Log("PerturbNp", 0)
 PerturbStd == Room /\ stdRng' = stdRng + 1 /\ UNCHANGED <<cfg, cached, callerCfg, book, priv, npRng, hist, alive, last>> /\ Log("PerturbStd", 0)
@@ -93,6 +101,7 @@ PerturbStd == Room /\ stdRng' = stdRng + 1 /\ UNCHANGED <<cfg, cached, callerCfg
 Next == \/ \E c \in Cfgs \cup {None} : Construct(c)
         \/ \E d \in Cfgs \cup {Bad} : SetConfig(d)
         \/ \E t \in Tasks : Optimize(t)
+        \/ \E t \in Tasks : OptimizeBadCall(t)
         \/ PerturbNp \/ PerturbStd
 Spec == Init /\ [][Next]_vars
 
@@ -107,6 +116,8 @@ CallerUntouched == [][(\E t \in Tasks : Optimize(t)) => callerCfg' = callerCfg /
 CanConstructEmpty == (Len(trace) > 0 /\ trace[Len(trace)] = <<"Construct", None>>) => last = "ok"
 NoConfigRefuses == (Len(trace) > 0 /\ trace[Len(trace)][1] = "Optimize" /\ last = "ValueError") => cfg = None
 RefusedMeansNoConfig == [][(\E t \in Tasks : Optimize(t)) /\ cfg = None => last' = "ValueError" /\ hist' = hist]_vars
+\* C06: an invalid call is rejected up front
+BadCallRefused == [][(\E t \in Tasks : OptimizeBadCall(t)) => last' = "ValueError" /\ hist' = hist /\ book' = book]_vars
 SetConfigEquals == (Len(trace) > 0 /\ trace[Len(trace)][1] = "SetConfig" /\ trace[Len(trace)][2] # Bad) => cfg = trace[Len(trace)][2]
 \* a run after set_config_parameters(d) equals a run of an optimizer constructed with that configuration
 SetConfigRunEquals == \A a \in DOMAIN hist : hist[a].result[1] = hist[a].key[1]
